@@ -69,8 +69,8 @@ def main():
         for d, name, want_zero in ((clean, "clean", True), (mut, "patched", False)):
             dp = os.path.join(work, "demo_%s.py" % name)
             wt_root = os.path.join(os.path.dirname(os.path.abspath(a.src)), a.pid)     # the sub-agent's worktree path
-            open(dp, "w").write(text.replace(wt_root, d))
-            rc, o, e = sh(["/venv/bin/python", dp], cwd=d, env=env, timeout=900)
+            open(dp, "w").write(text.replace(os.path.realpath(src).rsplit("/out", 1)[0], d).replace(wt_root, d))
+            rc, o, e = sh(["/venv/bin/python", dp], cwd=d, env=dict(env, PYTHONPATH=d), timeout=900)
             ran.append("demo on the %s copy: exit %d" % (name, rc))
             print("demo on %s copy: exit %d" % (name, rc))
             if (rc == 0) != want_zero:
